@@ -75,6 +75,21 @@ def sib_export(ctx: Ctx) -> List[Ob]:
         kf_known[f.qualname] = kf is not None
         loops = _loops_over(f, "node")
         O(f, f"{q}: node loop and edge loop both iterate `node` (same pre-order walk)", True if len(loops) == 2 else (None if loops else False), f"{len(loops)} loops over the start node")
+        if len(loops) == 1:
+            # node loop and edge loop merged: whatever mentions the parent of the loop variable (the edge, or its collection
+            # for later) must not sit behind the "this key was seen before" test - every tree node has its own edge
+            lp1 = loops[0]
+            v1 = norm(lp1.target)
+            for x in ast.walk(lp1):
+                if isinstance(x, (ast.Call, ast.Yield)) and any(isinstance(y, ast.Attribute) and y.attr in ("_parent", "parent") and norm(y.value) == v1 for y in ast.walk(x)) \
+                        and not any(isinstance(z, (ast.Call, ast.Yield)) and z is not x and any(z is w for w in ast.walk(x)) and any(
+                            isinstance(y, ast.Attribute) and y.attr in ("_parent", "parent") and norm(y.value) == v1 for y in ast.walk(z)) for z in ast.walk(x)):
+                    seen = [("" if p_ else "not ") + norm(a_) for a_, p_ in inner(f, x, lp1)
+                            if isinstance(a_, ast.Compare) and len(a_.ops) == 1 and isinstance(a_.ops[0], (ast.In, ast.NotIn)) and isinstance(a_.comparators[0], ast.Name)]
+                    if seen:
+                        O(f, f"{q}: one edge per tree node (also for the second and later clones)", False,
+                          f"`{norm(x)[:70]}` runs only under {seen}: the edge from the parent to a clone whose key was already defined is lost", x)
+                        break
         if len(loops) != 2:
             continue
 
@@ -891,6 +906,10 @@ def diff(ctx: Ctx) -> List[Ob]:
                     if its_ and all(t_.endswith(".get_clones()") for t_ in its_) and not any("REMOVED" in t_ for t_ in to_conds):
                         ok = False
                         why = f"MOVED_TO is set on every element of `{its_[0]}`: unchanged clones that exist in both trees become moved-away"
+                # witness: the mark depends on having *any* clone, not a REMOVED one
+                if not g_ok and guard and all(canon_list(e).endswith(".get_clones()") for e in guard):
+                    ok = False
+                    why = f"MOVED_HERE is set when `{canon_list(guard[0])}` is non-empty: an added node with an untouched clone becomes moved-here without a moved-away partner"
                 all_conds = [e for e, pol in path_conds(ctx, f, here[0]) if id(getattr(e, "_orig", e)) in {id(x) for x in ast.walk(lp)}]
                 if not all_conds:
                     ok = False  # witness: MOVED_HERE is set on every added node (or once per clone), whatever its clones are marked
